@@ -219,17 +219,17 @@ Qed.
 (* lexing x ++ LF :: y = tokens of x, the NEWLINE, tokens of y; and no COLON token comes out of a
    colon-free x *)
 Lemma lexf_line_local n : forall x st, length x <= n ->
-  exists tx, (~ In 58%N x -> Forall not_colon tx) /\
+  exists tx, (~ In 58%N x -> Forall not_colon tx) /\ lexf st x = Ok tx /\
              forall y ty, lexf st_init y = Ok ty -> lexf st (x ++ LF :: y) = Ok (tx ++ (NEWLINE, [LF]) :: ty).
 Proof.
   induction n as [|n IH]; intros x st Hl.
-  - destruct x; [|cbn in Hl; lia]. exists []. split; [constructor|]. intros y ty Hy. cbn [app].
+  - destruct x; [|cbn in Hl; lia]. exists []. split; [constructor|]. split; [reflexivity|]. intros y ty Hy. cbn [app].
     apply lexf_lf; [tauto|exact Hy].
   - destruct x as [|c r].
-    + exists []. split; [constructor|]. intros y ty Hy. cbn [app]. apply lexf_lf; [tauto|exact Hy].
+    + exists []. split; [constructor|]. split; [reflexivity|]. intros y ty Hy. cbn [app]. apply lexf_lf; [tauto|exact Hy].
     + destruct (lex_step_total st c r) as (k & t & st' & r' & E & Hr).
-      destruct (IH r' st' ltac:(cbn in Hl; lia)) as (tx & Hc & Hx).
-      exists ((k, t) :: tx). split.
+      destruct (IH r' st' ltac:(cbn in Hl; lia)) as (tx & Hc & Hself & Hx).
+      exists ((k, t) :: tx). split; [|split; [rewrite lexf_cons, E, Hself; reflexivity|]].
       * intros Hin. constructor.
         -- unfold not_colon. cbn [fst]. intros Hk. apply Hin. left. eapply lex_step_colon; eassumption.
         -- apply Hc. intros Hin'. apply Hin. right.
@@ -272,7 +272,7 @@ Proof.
   cbn [no_eol forallb] in Hne. apply andb_true_iff in Hne. destruct Hne as [Hnl _]. apply negb_true_iff in Hnl.
   cbn [app]. rewrite lexf_cons, lex_step_before_lf.
   destruct (lex_step_total st_init c r) as (k & t & st' & r' & E & Hr). rewrite E.
-  destruct (lexf_line_local (length r') r' st' (le_n _)) as (tx & Hc & Hx). rewrite (Hx y ty Hy).
+  destruct (lexf_line_local (length r') r' st' (le_n _)) as (tx & Hc & _ & Hx). rewrite (Hx y ty Hy).
   eexists. split; [reflexivity|].
   (* which token is first? *)
   unfold lex_step in E. cbn [sol colon ind st_init negb andb orb] in E.
@@ -313,7 +313,65 @@ Proof.
   assert (Hlex : exists ts, lex (pre ++ l ++ [LF] ++ post) = Ok ts /\ bad_at true ts = true).
   { destruct Hpre as [->|[p ->]].
     - exists T. split; [exact ET|]. destruct T as [|[k s] T']; [discriminate|]. rewrite bad_at_cons, HT. reflexivity.
-    - destruct (lexf_line_local (length p) p st_init (le_n _)) as (tp & _ & Hp).
+    - destruct (lexf_line_local (length p) p st_init (le_n _)) as (tp & _ & _ & Hp).
+      exists (tp ++ (NEWLINE, [LF]) :: T). split.
+      + rewrite <- app_assoc. cbn [app]. rewrite lex_is_lexf. apply (Hp _ _ ET).
+      + apply bad_at_after_nl. exact HT. }
+  destruct Hlex as (ts & Els & Hb).
+  unfold from_str, parse. rewrite Els.
+  destruct (parse_tokens_total ts) as (t & n & Ep & _). rewrite Ep.
+  pose proof (bad_tokens_rejected ts t n Ep Hb). destruct n; [lia|reflexivity].
+Qed.
+
+(* ================= ... also as the last line, without a line end ================= *)
+Lemma skip_ws_not_colon_end tz : Forall not_colon tz -> cur (snd (skip_ws tz)) <> Some COLON.
+Proof.
+  intros H. induction H as [|[k s] r Hk Hr IH]; [discriminate|].
+  unfold skip_ws. cbn [bump_while]. destruct (is_ws_or_comment k) eqn:E.
+  - fold skip_ws. destruct (skip_ws r) as [e r'] eqn:Es. cbn [snd] in *. exact IH.
+  - cbn [snd cur]. unfold not_colon in Hk. cbn [fst] in Hk. congruence.
+Qed.
+
+Lemma bad_line_tokens_last l : bad_line l = true ->
+  exists T, lexf st_init l = Ok T /\ bad_here T = true.
+Proof.
+  unfold bad_line. intros H. apply andb_true_iff in H. destruct H as [Hne H].
+  destruct l as [|c r]; [discriminate|].
+  apply andb_true_iff in H. destruct H as [H Hor]. apply andb_true_iff in H. destruct H as [Hi H35].
+  apply negb_true_iff in Hi. apply negb_true_iff in H35.
+  cbn [no_eol forallb] in Hne. apply andb_true_iff in Hne. destruct Hne as [Hnl _]. apply negb_true_iff in Hnl.
+  rewrite lexf_cons.
+  destruct (lex_step_total st_init c r) as (k & t & st' & r' & E & Hr). rewrite E.
+  destruct (lexf_line_local (length r') r' st' (le_n _)) as (tx & Hc & Hself & _). rewrite Hself.
+  eexists. split; [reflexivity|].
+  unfold lex_step in E. cbn [sol colon ind st_init negb andb orb] in E.
+  rewrite Hnl, Hi, H35 in E. cbn [andb] in E.
+  destruct (c =? 58)%N eqn:E58.
+  - inversion E; subst. reflexivity.
+  - cbn [andb] in E. destruct (is_valid_initial_key_char c) eqn:Ek.
+    + cbn [negb orb] in Hor. apply negb_true_iff in Hor.
+      cbn [andb] in E. destruct (span is_valid_key_char r) as [w rr] eqn:Es. inversion E; subst.
+      cbn [bad_here].
+      assert (Hnc : ~ In 58%N r').
+      { intros Hin. assert (In 58%N (c :: r)).
+        { right. pose proof (span_app _ _ _ _ Es) as Ha. rewrite <- Ha. apply in_or_app. right. exact Hin. }
+        assert (existsb (fun x => (x =? 58)%N) (c :: r) = true) by (apply existsb_exists; exists 58%N; split; [assumption|reflexivity]).
+        congruence. }
+      pose proof (skip_ws_not_colon_end tx (Hc Hnc)) as Hs.
+      destruct (cur (snd (skip_ws tx))) as [k0|]; [destruct k0; try reflexivity; congruence|reflexivity].
+    + cbn [andb orb] in E. inversion E; subst. reflexivity.
+Qed.
+
+Theorem C03_reject_last_all (pre l : str) :
+  (pre = [] \/ exists p, pre = p ++ [LF]) -> bad_line l = true ->
+  from_str (pre ++ l) = Err 1%N.
+Proof.
+  intros Hpre Hbad.
+  destruct (bad_line_tokens_last l Hbad) as (T & ET & HT).
+  assert (Hlex : exists ts, lex (pre ++ l) = Ok ts /\ bad_at true ts = true).
+  { destruct Hpre as [->|[p ->]].
+    - exists T. split; [exact ET|]. destruct T as [|[k s] T']; [discriminate|]. rewrite bad_at_cons, HT. reflexivity.
+    - destruct (lexf_line_local (length p) p st_init (le_n _)) as (tp & _ & _ & Hp).
       exists (tp ++ (NEWLINE, [LF]) :: T). split.
       + rewrite <- app_assoc. cbn [app]. rewrite lex_is_lexf. apply (Hp _ _ ET).
       + apply bad_at_after_nl. exact HT. }
